@@ -143,7 +143,8 @@ var propInfo = map[string]struct {
 	"C09": {"proof",
 		"The accumulators count, sum, avg, min and max are proved to be left folds in scan order: Update is exactly one fold step on convertToNumber of the argument's value for the pair (state unchanged when the argument fails to evaluate), Complete reads the documented result out of the state (integer sum unless a float was seen; avg = sum / count as floats; min / max by the integer or float reading), Clone yields the initial state in a fresh object. convertToNumber is evaluated in place (pure). The group key of a row is the length-prefixed encoding of its rendered group-by values, which distinct value tuples cannot share (defect D16, repaired).",
 		[]string{
-			"group keys are covered (getAggrKey and its batch twin batchGetAggrKeys return gkN = the length-prefixed encoding of the rendered group-by values, proved injective for 1, 2 and 3 group-by columns by lemmas gk_inj1..3 / group_sound1..3 over the cat-cancellation axiom; text, Boolean, integer and float values are rendered injectively per kind - lemma render_inj; floats with %v, D28 repaired); the grouping loops prepare / prepareBatch are under contract: cache discipline (C05), error surfacing (C13) and dispatch (at the end of every iteration the updated row is the group map's entry for the pair's key, and a row created in the iteration is the last of aggrRows); NOT yet covered: the global statement (one row per distinct key over the whole scan, aggregates over exactly the group's pairs: on paper from dispatch + the accumulator folds), createAggrRow / updateRowAggrFunc bodies (thin assumed contracts), next / batch rendering, group_concat, json_arrayagg and quantile",
+			"group keys are covered (getAggrKey and its batch twin batchGetAggrKeys return gkN = the length-prefixed encoding of the rendered group-by values, proved injective for 1, 2 and 3 group-by columns by lemmas gk_inj1..3 / group_sound1..3 over the cat-cancellation axiom; text, Boolean, integer and float values are rendered injectively per kind - lemma render_inj; floats with %v, D28 repaired); the grouping loops prepare / prepareBatch are under contract: cache discipline (C05), error surfacing (C13) and dispatch (at the end of every iteration the updated row is the group map's entry for the pair's key, and a row created in the iteration is the last of aggrRows); NOT yet covered: the global statement (one row per distinct key over the whole scan, aggregates over exactly the group's pairs: on paper from dispatch + the accumulator folds), createAggrRow / updateRowAggrFunc bodies (thin assumed contracts), next / batch rendering (the Result memo of aggregate call nodes is rewritten per group: outside A-EVAL), json.Marshal of json_arrayagg's items, quantile",
+			"group_concat is covered as a left fold: Update appends toString of the argument's value, Complete is strings.Join of the items with the separator (joinN, T-STD, unfolded: joined(items ++ [s]) = joined(items) ++ sep ++ s), Clone starts empty with the same separator; json_arrayagg: Update appends the value (numbers and Booleans as they are, bytes as text), Clone starts empty; min / max Clone start unset",
 			"axiom cat_cancel (cat(a, b) = cat(a, c) implies b = c, and equal-length prefixes of equal concatenations are equal) and be32 injective below 2^32 are assumed of byte strings; a rendered value longer than 4 GiB is outside the model",
 			"A-EVAL: the value of the aggregate's argument is evalv of the interface contract of Expression.Execute",
 			"floats are uninterpreted (fadd / fdiv / flt): the fold order is the code's, no IEEE fact is used; int64 is mathematical (A-INT)",
